@@ -27,6 +27,7 @@ BBDEFS = [
     {"name": "two", "inputs": ["a", "b"], "outputs": ["y", "z"]},
     {"name": "dot", "inputs": ["p.d"], "outputs": ["o"]},  # pin name containing the separator
     {"name": "bidi", "inputs": ["a", "dq"], "outputs": ["dq", "y"]},  # one pin name in both lists: the instance cannot be built
+    {"name": "subpin", "inputs": ["a"], "outputs": ["inner.d", "inner.q"]},  # matches child ch4
 ]
 
 
@@ -55,7 +56,11 @@ def gen(rng, ctx):
     # a child with two outputs (both may be mapped onto the same parent net) and a nested blackbox instance
     children.append({"name": "ch3", "nodes": [["a", "input", False], ["b", "input", False], ["y", "and", True], ["z", "or", True], ["n0.p", "bb_input", False], ["n0.o", "bb_output", False], ["w", "buf", False]],
                      "edges": [["a", "y"], ["b", "y"], ["a", "z"], ["w", "z"], ["b", "n0.p"], ["n0.o", "w"]], "bbs": {"n0": {"name": "one", "inputs": ["p"], "outputs": ["o"]}}})
-    names = ["a", "b", "c", "g", "x_y", "a_0", "u", "u.p", "u.o", "v", "1z", "w.d", "I", "I_p", "I_o", "u_p"]
+    # a child whose outputs are the pins of an instance nested in it (legal as a circuit; as a filling it would put
+    # parent loads on a blackbox input / a second load on a blackbox output)
+    children.append({"name": "ch4", "nodes": [["a", "input", False], ["inner.d", "bb_input", True], ["inner.q", "bb_output", True], ["qb", "buf", False]],
+                     "edges": [["a", "inner.d"], ["inner.q", "qb"]], "bbs": {"inner": {"name": "ffi", "inputs": ["d"], "outputs": ["q"]}}})
+    names = ["a", "b", "c", "g", "x_y", "a_0", "u", "u.p", "u.o", "v", "1z", "w.d", "I", "I_p", "I_o", "u_p", ""]
     existing = [n for n, _, _ in start["nodes"]] if start else []
     n_ops = rng.randint(5, 40 if big else 28)
     ops = []
@@ -96,9 +101,32 @@ def gen(rng, ctx):
         k = rng.choice(["add", "add", "add", "add_uid", "connect", "connect", "connect", "disconnect", "remove", "set_output", "add_blackbox", "add_subcircuit", "fill_blackbox", "targeted"])
         if k == "targeted":
             # calls aimed at one wiring rule, built from the (approximate) types of the live nodes
-            t = rng.choice(["bbout_to_bufs", "second_driver", "into_source", "from_bbin", "bbout_to_gate", "fresh_bufs_then_bbout", "bb_conn_list", "add_bbout_fanout", "two_pins_one_buf", "pin_replaced_then_fill", "fill_nested_name_taken", "fill_nested_name_taken", "unknown_pin_names_node"])
+            t = rng.choice(["bbout_to_bufs", "second_driver", "into_source", "from_bbin", "bbout_to_gate", "fresh_bufs_then_bbout", "bb_conn_list", "add_bbout_fanout", "two_pins_one_buf", "pin_replaced_then_fill", "fill_nested_name_taken", "fill_nested_name_taken", "unknown_pin_names_node", "fill_with_pin_outputs", "self_as_child"])
             bo, bi = of_type("bb_output"), of_type("bb_input")
             bufs = [n for n in live if ltype.get(n) == "buf"]
+            if t == "fill_with_pin_outputs":
+                b0, b1 = f"fb{len(ops)}", f"fc{len(ops)}"
+                name = f"T{len(ops)}"
+                ops.append({"op": "add", "n": b0, "type": "buf", "uid": False, "output": True})
+                ops.append({"op": "add", "n": b1, "type": "buf", "uid": False, "output": True})
+                live += [b0, b1]
+                ltype[b0] = ltype[b1] = "buf"
+                conns = {"a": pick()}
+                if rng.random() < 0.8:
+                    conns["inner.d"] = b0
+                if rng.random() < 0.8:
+                    conns["inner.q"] = b1
+                ops.append({"op": "add_blackbox", "bb": BBDEFS[5], "name": name, "connections": conns})
+                ops.append({"op": "fill_blackbox", "name": name, "child": 4})
+                insts.append(name)
+                continue
+            if t == "self_as_child":
+                # the circuit instantiated inside itself / filled into one of its own instances
+                if rng.random() < 0.5 or not insts:
+                    ops.append({"op": "add_subcircuit", "child": -1, "name": rng.choice(["I", "u", "s"]), "connections": {}})
+                else:
+                    ops.append({"op": "fill_blackbox", "name": rng.choice(insts), "child": -1})
+                continue
             if t == "unknown_pin_names_node":
                 # instance u.v exists; instance u is then declared with the connection key "v.o" / "v.p" (no pin of its
                 # cell, but u.v.o / u.v.p are nodes): the call must be refused whatever those nodes could be wired to
@@ -170,7 +198,7 @@ def gen(rng, ctx):
             elif t == "bbout_to_bufs" and bo and bufs:
                 ops.append({"op": "connect", "us": bo, "vs": rng.sample(bufs, min(len(bufs), rng.randint(1, 2)))})
             elif t == "second_driver" and (bi or bufs):
-                ops.append({"op": "connect", "us": [pick(), pick()] if rng.random() < 0.5 else pick(), "vs": rng.choice([x for x in [bi] + bufs if x])})
+                ops.append({"op": "connect", "us": [pick(), pick()] if rng.random() < 0.5 else pick(), "vs": rng.choice([x for x in [bi] + bufs if x is not None])})
             elif t == "into_source":
                 tgt = of_type("input", "0", "1", "x", "bb_output")
                 if tgt:
@@ -416,11 +444,11 @@ def check(case, ctx):
             if "strip_io" in op:
                 kw["strip_io"] = op["strip_io"]
                 ctx.count("add_subcircuit_strip_io_false")
-            ok, r = ctx.call(c.add_subcircuit, kids[op["child"]], op["name"], dict(op["connections"]), **kw)
+            ok, r = ctx.call(c.add_subcircuit, (c if op["child"] == -1 else kids[op["child"]]), op["name"], dict(op["connections"]), **kw)
             label = f"add_subcircuit(ch{op['child']},{op['name']!r},{op['connections']},{kw})"
             key = k
         else:
-            ok, r = ctx.call(c.fill_blackbox, op["name"], kids[op["child"]])
+            ok, r = ctx.call(c.fill_blackbox, op["name"], (c if op["child"] == -1 else kids[op["child"]]))
             label = f"fill_blackbox({op['name']!r},ch{op['child']})"
             key = k
         types, edges, outs, bbs = state(c)
@@ -431,10 +459,14 @@ def check(case, ctx):
         else:
             n_rej += 1
         what = f"step {step} {label} -> {'returned ' + repr(r) if ok else 'raised ' + repr(r)}"
+        if ok and k in ("add_subcircuit", "fill_blackbox") and op["child"] == -1:
+            # the copy carries the instances of the circuit as the caller left them (pins the caller removed or replaced)
+            removed_by_caller |= {f"{op['name']}_{x}" for x in removed_by_caller}
+            ctx.count("self_as_child_accepted")
         if ok and k in ("add_subcircuit", "fill_blackbox"):
             # an instance name that is already taken is an illegal name: the nested instances of the child are
             # registered as <name>_<nested>
-            taken = [f"{op['name']}_{nb}" for nb in case["children"][op["child"]]["bbs"] if f"{op['name']}_{nb}" in b_bbs]
+            taken = [f"{op['name']}_{nb}" for nb in (b_bbs if op["child"] == -1 else case["children"][op["child"]]["bbs"]) if f"{op['name']}_{nb}" in b_bbs]
             if taken:
                 ctx.violation(f"instance_name_clash_accepted_by_{key}", f"{what}: instance name(s) {taken} were already registered, the call must be refused", extra={"step": step, "site": key})
                 return
@@ -485,7 +517,7 @@ def gates(counters, table, tier):
         for o in ("ok", "rejected"):
             if counters.get(f"{k}:{o}", 0) < 5:
                 out.append(f"{k} never {o} ({counters.get(f'{k}:{o}', 0)})")
-    for k in ("disconnect:ok", "remove:ok", "set_output:ok", "uid_renamed", "uid_storm", "add_uid_with_allow_redefinition", "add_subcircuit_strip_io_false", "connect_rep:iter", "connect_rep:set", "connect_rep:tuple", "start_derived_by:strip_inputs", "add_blackbox_unknown_pin_names_other_node", "start_derived_by:copy", "start_derived_by:relabel"):
+    for k in ("disconnect:ok", "remove:ok", "set_output:ok", "uid_renamed", "uid_storm", "add_uid_with_allow_redefinition", "add_subcircuit_strip_io_false", "connect_rep:iter", "connect_rep:set", "connect_rep:tuple", "start_derived_by:strip_inputs", "add_blackbox_unknown_pin_names_other_node", "self_as_child_accepted", "start_derived_by:copy", "start_derived_by:relabel"):
         if counters.get(k, 0) < 5:
             out.append(f"{k} seen {counters.get(k, 0)} times")
     if counters.get("calls", 0) < 10000 and tier == "quick":
